@@ -479,7 +479,31 @@ def r07_8(ctx: Ctx) -> None:
     ctx.check(ok, "R07.8", f, n.test if n is not None else f.node, "CRC section carries the defined vector", "the substream CRC section is not written with the digestsdefined vector", construct="SubstreamsInfo.write CRC")
 
 
+def r07_10(ctx: Ctx, rule: str = "R07.10") -> None:
+    """every mode that starts a write session ends it: the mode constants under which the constructor calls _prepare_write /
+    _prepare_append ('w', 'x', 'a') are all covered by the mode tests under which close() calls _write_flush.  A mode that prepares but
+    never flushes leaves the placeholder signature header on disk: an unreadable file, no error."""
+    init = shared.szf(ctx, "__init__")
+    close = shared.szf(ctx, "close")
+    def mode_consts(f, call):
+        return shared.mode_guard_consts(f, call)
+    prepared, flushed = set(), set()
+    for c in q.calls(init):
+        if attr_tail(c) in ("_prepare_write", "_prepare_append"):
+            prepared |= mode_consts(init, c)
+    for c in q.calls(close):
+        if attr_tail(c) == "_write_flush":
+            flushed |= mode_consts(close, c)
+    # the append arm may also start a fresh archive: its constant is 'a' already
+    ctx.need(bool(prepared) and bool(flushed), f"mode tests around _prepare_*/_write_flush not recognised (prepared={prepared}, flushed={flushed})")
+    missing = sorted(prepared - flushed)
+    ctx.check(not missing, rule, close, close.node, f"close() flushes every write mode {sorted(prepared)}",
+              f"the constructor prepares a write session for mode(s) {sorted(prepared)} but close() flushes only for {sorted(flushed)}: an archive created with mode "
+              f"{missing} keeps the placeholder header and cannot be opened ('invalid header data'), without any error at close", construct="modes flushed at close")
+
+
 def run(ctx: Ctx) -> None:
+    r07_10(ctx)
     from . import c15
     c15.r15_1(ctx, rule="R07.9")  # a member registered in the header lists without a stream makes file and substream counts disagree
     r07_8(ctx)
